@@ -210,6 +210,10 @@ def correspondence(ctx):
     n = 40 if ctx.tier == 'quick' else 400
     try:
         corr = e2e.run_focus(ctx, 'c06', n, corr=corr)
+        # ... and once per class with the verifying process in a zone west and in a zone east of UTC
+        for tz in ('Etc/GMT+9', 'Etc/GMT-9'):
+            if os.path.exists('/usr/share/zoneinfo/' + tz):
+                corr = e2e.run_focus(ctx, 'c06', 17, corr=corr, env={'TZ': tz}, tag='-' + tz.replace('/', '_'))
     except V.BuildError as e:
         deferred.append('pipeline level (e2e): ' + str(e)[:600])
     corr.rule += ("; PIPELINE LEVEL: %d generated supply chains whose only defect is the expiry (expired long ago / 3 s ago, garbage, empty, "
